@@ -659,6 +659,70 @@ def _rand_zipctx(rng):
     return {"op": "zipctx", "results": results, "fields": fields, "kind": rng.choice(["fc", "fr"])}
 
 
+# ---- real lena accumulators and elements that change what they were filled with (op "realfc") ----------
+REAL_FC = ["Count", "Sum", "Mean", "StoreFilled", "StoreFilledFlat", "MutFC", "KeepFC"]
+REAL_FR = ["MutFR", "KeepFR"]
+
+
+class _MutBase(object):
+    """a harness accumulator on (data, context) values: Mut* marks, in place, the context of every value it is
+    filled with (as lena.flow.Count does with the last one at compute time); Keep* reports the last value object
+    it was filled with — so a missing copy between two branches changes VALUES"""
+
+    def __init__(self, name, mutate):
+        self.name, self.mutate = name, mutate
+        self.last, self.n = None, 0
+
+    def fill(self, val):
+        self.n += 1
+        if self.mutate and isinstance(val, tuple) and len(val) == 2 and isinstance(val[1], dict):
+            val[1]["seen_by"] = val[1].get("seen_by", "") + self.name
+        self.last = val
+
+    def _results(self):
+        yield (self.name, self.n, self.last)
+
+
+def _mk_real(name, pos):
+    import lena.flow
+    import lena.math
+    if name == "Count":
+        return lena.flow.Count()
+    if name == "Sum":
+        return lena.math.Sum()
+    if name == "Mean":
+        return lena.math.Mean()
+    if name == "StoreFilled":
+        return lena.flow.StoreFilled()
+    if name == "StoreFilledFlat":
+        return lena.flow.StoreFilled(yield_as_a_group=False)
+    el = _MutBase("%s%d" % (name, pos), name.startswith("Mut"))
+    if name.endswith("FC"):
+        el.compute = el._results
+    else:
+        def request(el=el):
+            res = list(el._results())
+            el.n = 0
+            return iter(res)
+        el.request = request
+    return el
+
+
+def _rand_realfc(rng):
+    """common-type Splits of real accumulators / value-changing elements on values WITH CONTEXT: the common
+    methods against run (copy_buf=True: every branch but the last works on its own copy)"""
+    kind = "fc" if rng.random() < 0.7 else "fr"
+    names = REAL_FC if kind == "fc" else REAL_FR
+    n = rng.randint(0, 5)
+    flow = []
+    for i in range(n):
+        r = rng.random()
+        data = rng.randint(-3, 9)
+        flow.append([data, {"tag": "v%d" % i}] if r < 0.75 else [data, {}] if r < 0.85 else data)
+    return {"op": "realfc", "kind": kind, "brs": [rng.choice(names) for _ in range(rng.randint(1, 4))],
+            "flow": flow, "copy_buf": rng.random() < 0.75, "bufsize": rng.choice([1, 2, 3, 1000, None])}
+
+
 def _rand_blocks(rng, maxn):
     flow = _rand_flow(rng, maxn)
     blocks, i = [], 0
@@ -783,14 +847,14 @@ def gen_cases(ctx):
     import random
     if ctx.tier == "quick":
         exh = {0: 3, 1: 3, 2: 3, 3: 2, 4: 2}
-        n_run, n_meth, n_zip, n_runx, n_zctx = 900, 500, 400, 900, 400
+        n_run, n_meth, n_zip, n_runx, n_zctx, n_real = 900, 500, 400, 900, 400, 500
         maxbr, maxn = 4, 8
         spec_every, spec_p = 1, 1.0
     else:
         # the property's quantifier for N = 4: every branch list of length 0..4 over the four kinds, every
         # bufsize, both copy_buf, every stop index (lists of length 4 on flows of length 0..3; 0..3 on length 4)
         exh = {0: 4, 1: 4, 2: 4, 3: 4, 4: 3}
-        n_run, n_meth, n_zip, n_runx, n_zctx = 24000, 8000, 6000, 15000, 6000
+        n_run, n_meth, n_zip, n_runx, n_zctx, n_real = 24000, 8000, 6000, 15000, 6000, 12000
         maxbr, maxn = 5, 8
         spec_every, spec_p = 8, 0.3
     ctx.exhaustive = False  # the random part is sampled
@@ -805,6 +869,7 @@ def gen_cases(ctx):
         _repeat(n_zip, _rand_zip, sub(), 4, 7),
         _repeat(n_runx, _rand_runx, sub(), maxbr, 6),
         _repeat(n_zctx, _rand_zipctx, sub()),
+        _repeat(n_real, _rand_realfc, sub()),
         _init_cases(sub(), ctx.tier),
     ]
     return _roundrobin(streams)
@@ -1103,6 +1168,93 @@ def _zipctx_impl(case):
     return out
 
 
+def _real_flow(case):
+    """a fresh flow for every use: values with context are (data, dict) pairs with their own dict objects"""
+    import copy
+    return [((v[0], copy.deepcopy(v[1])) if isinstance(v, list) else v) for v in case["flow"]]
+
+
+def _outcome(fn):
+    try:
+        return {"r": canon(fn())}
+    except Exception as e:
+        return {"e": exc_name(e)}
+
+
+def _realfc_impl(case):
+    import lena.core as lc
+    names, kind, cb, bs = case["brs"], case["kind"], case["copy_buf"], case["bufsize"]
+
+    def branches():
+        return [_mk_real(nm, i) for i, nm in enumerate(names)]
+
+    def blocks(flow):
+        return _blocks(flow, bs)
+
+    def via_run():
+        return list(lc.Split(branches(), bufsize=bs, copy_buf=cb).run(iter(_real_flow(case))))
+
+    def via_methods():
+        s = lc.Split(branches(), bufsize=bs, copy_buf=cb)
+        if kind == "fc":
+            for v in _real_flow(case):
+                s.fill(v)
+            return list(s.compute())
+        out = []
+        bl = blocks(_real_flow(case))
+        for blk in bl:
+            for v in blk:
+                s.fill(v)
+            out.extend(s.request())
+        if not bl:
+            out.extend(s.request())
+        return out
+
+    def via_nested():
+        inner = lc.Split(branches(), bufsize=bs, copy_buf=cb)
+        return list(lc.Split([inner], bufsize=bs, copy_buf=cb).run(iter(_real_flow(case))))
+
+    def alone():
+        out = []
+        els = branches()
+        bl = blocks(_real_flow(case))
+        if kind == "fc":
+            for el in els:
+                for v in _real_flow(case):
+                    el.fill(v)
+            for el in els:
+                out.extend(el.compute())
+            return out
+        for k in range(max(len(bl), 1)):
+            for el in els:
+                for v in (blocks(_real_flow(case))[k] if bl else []):
+                    el.fill(v)
+            for el in els:
+                out.extend(el.request())
+        return out
+    return {"run": _outcome(via_run), "methods": _outcome(via_methods), "nested": _outcome(via_nested),
+            "alone": _outcome(alone)}
+
+
+def _oracle_realfc(case, res):
+    """'a Split whose branches share one type offers that type's methods with the same meaning': for every flow,
+    `fill` each value then `compute()` (block-wise `fill` then `request()`) yields what `run(flow)` yields, also when
+    the Split is nested as a branch of another one; with copy_buf=True (every branch but the last gets its own copy)
+    that is what the branches yield when each is driven alone.  copy_buf=False may legitimately interfere: no claim."""
+    if not case["copy_buf"]:
+        return None
+    what = (f"Split([{', '.join(case['brs'])}], bufsize={case['bufsize']}, copy_buf=True) on the flow "
+            f"{case['flow']}")
+    how = "fill each value then compute()" if case["kind"] == "fc" else "fill each block then request()"
+    if res["methods"] != res["run"]:
+        return f"[methods-vs-run] {what}: {how} yields {res['methods']} but run(flow) yields {res['run']}"
+    if res["nested"] != res["run"]:
+        return f"[nested-vs-run] {what}: nested as the only branch of another Split it yields {res['nested']}, run alone {res['run']}"
+    if res["alone"] != res["run"]:
+        return f"[branches-interfere] {what}: run(flow) yields {res['run']} but the branches driven alone (own copies) yield {res['alone']}"
+    return None
+
+
 def _caps_el(caps):
     d = {}
     if "f" in caps:
@@ -1195,6 +1347,8 @@ def _run_impl(case):
         return _runx_impl(case)
     if op == "zipctx":
         return _zipctx_impl(case)
+    if op == "realfc":
+        return _realfc_impl(case)
     if op == "zip":
         return _zip_impl(case)
     if op == "init":
@@ -1223,6 +1377,8 @@ def model_requests(case):
                  "bufsizes": case["bufsizes"], "copy_buf": case["copy_buf"], "spec": bool(case.get("spec"))}]
     if op == "methods":
         return [{"op": "methods", "brs": [_mspec(s) for s in case["brs"]], "blocks": case["blocks"]}]
+    if op == "realfc":
+        return []  # values are changed in place by the branches: outside the value model (aliasing: C04); oracle only
     if op == "zipctx":
         return [{"op": "zipctx", "n": len(ZKEYS), "zk": ZKEYS.index("zip"), "fields": case["fields"],
                  "kind": case["kind"],
@@ -1800,6 +1956,8 @@ def oracle(case, res):
         return _oracle_runx(case, res)
     if op == "zipctx":
         return _oracle_zipctx(case, res)
+    if op == "realfc":
+        return _oracle_realfc(case, res)
     if op == "zip":
         return _oracle_zip(case, res)
     if op == "init":
@@ -1835,6 +1993,8 @@ def nontrivial(case, res):
         return "init" in res or any(r["out"] or r["term"] != "done" for r in res["runs"])
     if op == "zipctx":
         return "init" in res or bool(res["r"]) or res["raised"] is not None
+    if op == "realfc":
+        return len(case["brs"]) >= 2 and bool(case["flow"])
     if op == "methods":
         return bool(res.get("fc") or res.get("fr") or (isinstance(res.get("call"), list) and res["call"]))
     if op == "zip":
@@ -1857,6 +2017,9 @@ def classify(case, res):
         forms = set(sp.get("form", "el") for sp in case["brs"])
         labels += [f"form:{f}" for f in sorted(forms)]
         return labels
+    if op == "realfc":
+        return ["realfc:" + case["kind"], "realfc:copy_buf=%s" % case["copy_buf"],
+                "realfc:" + ("raises" if "e" in res["run"] else "ok")]
     if op == "zipctx":
         if "init" in res:
             return ["zipctx:init-" + res["init"]["e"]]
@@ -1958,6 +2121,19 @@ def shrink(case):
                     yield dict(case, brs=brs[:i] + [dict(sp, **{k: v})] + brs[i + 1:])
             if isinstance(sp.get("stop"), int) and sp["stop"] > 0:
                 yield dict(case, brs=brs[:i] + [dict(sp, stop=sp["stop"] - 1)] + brs[i + 1:])
+    if op == "realfc":
+        brs, flow = case["brs"], case["flow"]
+        for i in range(len(brs)):
+            if len(brs) > 1:
+                yield dict(case, brs=brs[:i] + brs[i + 1:])
+        for i in range(len(flow)):
+            yield dict(case, flow=flow[:i] + flow[i + 1:])
+        if case["bufsize"] is not None:
+            yield dict(case, bufsize=None)
+        for i, nm in enumerate(brs):
+            for simpler in ("Sum", "Count"):
+                if case["kind"] == "fc" and nm not in ("Sum", "Count"):
+                    yield dict(case, brs=brs[:i] + [simpler] + brs[i + 1:])
     if op == "zipctx":
         rs = case["results"]
         for i in range(len(rs)):
